@@ -86,8 +86,11 @@ func ansiExtract(prev string, data []byte) string {
 
 func sgrParam(op string) string {
 	sep := ";"
+	empty := "" // an empty colour-space field after the 2 / 5 (what terminfo's direct-colour entries emit): ignored
 	if strings.HasSuffix(op, "c") && !strings.HasPrefix(op, "csi") {
 		sep, op = ":", op[:len(op)-1]
+	} else if strings.HasSuffix(op, "k") {
+		sep, op, empty = ":", op[:len(op)-1], ":"
 	}
 	kv := strings.SplitN(op, ":", 2)
 	switch kv[0] {
@@ -108,9 +111,9 @@ func sgrParam(op string) string {
 	case "bg256":
 		return "48" + sep + "5" + sep + kv[1]
 	case "fgrgb":
-		return "38" + sep + "2" + sep + strings.ReplaceAll(kv[1], ".", sep)
+		return "38" + sep + "2" + empty + sep + strings.ReplaceAll(kv[1], ".", sep)
 	case "bgrgb":
-		return "48" + sep + "2" + sep + strings.ReplaceAll(kv[1], ".", sep)
+		return "48" + sep + "2" + empty + sep + strings.ReplaceAll(kv[1], ".", sep)
 	case "on", "off":
 		return kv[1]
 	case "deffg":
@@ -238,8 +241,11 @@ func ansiGen(r *rand.Rand, count int, emit func(op string, args ...string)) {
 					ops = append(ops, x)
 				case 8:
 					x := fmt.Sprintf("%s:%d.%d.%d", []string{"fgrgb", "bgrgb"}[r.Intn(2)], r.Intn(256), r.Intn(256), r.Intn(256))
-					if r.Intn(3) == 0 {
+					switch r.Intn(4) {
+					case 0:
 						x += "c"
+					case 1:
+						x += "k"
 					}
 					ops = append(ops, x)
 				case 9:
